@@ -26,7 +26,7 @@ RULES = {
     "R08.3": "REP send: write only under Some(requester), to the entry looked up by that id; None -> message returned untouched",
     "R08.4": "REP recv: requester := key of the returned item, stored only on the Ok exit",
     "R08.5": "one peer-table entry per connection: fresh unique key for anonymous clients (C04 R04.3), overwrite on reconnect (C04 R04.4)",
-    "R08.F": "foundation clauses re-evaluated as necessary conditions: " + ", ".join(['decoder']),
+    "R08.F": "foundation clauses re-evaluated as necessary conditions: " + ", ".join(['decoder', 'wakeup']),
 }
 
 
@@ -103,7 +103,7 @@ def self_stores(p, upto=None):
     return [ev for ev in evs if ev.kind == "store" and ev.place.startswith("(*_") and not ev.place.startswith("(*_1)")]
 
 
-DEPENDS = ['decoder']     # foundation groups re-evaluated as necessary conditions (rules/found.py)
+DEPENDS = ['decoder', 'wakeup']     # foundation groups re-evaluated as necessary conditions (rules/found.py)
 
 
 def run(ctx, f, rep):
